@@ -226,7 +226,7 @@ func (r *checkRun) run() int {
 		}
 		r.reports = append(r.reports, rep)
 	}
-	sc := solveConfig{workDir: filepath.Join(verifDir, "work", id), quickT: 4, slowT: 10, workers: max(2, runtime.NumCPU()/3)}
+	sc := solveConfig{workDir: filepath.Join(verifDir, "work", id), quickT: 4, slowT: 20, workers: max(2, runtime.NumCPU()/3)}
 	if r.tier == "thorough" {
 		sc.quickT, sc.slowT, sc.allAgree = 20, 60, true
 	}
